@@ -80,6 +80,12 @@ def cases(d):
                     rhs = ["lit", d.randint(0, 3)] if d.chance(60) else ["f", d.choice(["a", "k"])]
                     b["stmts"].append(["foreach", "q", "i", None,
                                        [["expr", ["bin", d.choice(["<", "<=", "!=", ">", ">=", "=="]), ["el", "q", ["iv", "i"], None], rhs]]]])
+    if d.chance(35):
+        # ordering directives in two blocks that contradict each other: legal as long as at most one of the two blocks is
+        # enforced (a directive in a switched-off or overridden block takes no part in the call)
+        bl = classes[0]["blocks"]
+        bl[0]["stmts"].append(["order", ["a"], ["b"]])
+        bl[1]["stmts"].append(["order", ["b"], ["a"]])
     # some blocks are bound by assignment (c0 = vsc.constraint(fn)): the function's name is not the block's name
     for c in classes:
         for b in c["blocks"]:
@@ -288,6 +294,15 @@ def run_case(case):
                     if h is it.holder:
                         group = ([n] if n else []) + elems
                         # the holder's template element and the nested default object also take part; they are unconstrained here
+            def cyclic(g_):
+                """the enforced blocks of this instance order a before b AND b before a: a user error, such a call is not made"""
+                ords = [tuple(map(tuple, s_[1:3])) for n_, ss_ in g_.blocks.items() if g_.enabled[n_] for s_ in ss_ if s_[0] == "order"]
+                return (("a",), ("b",)) in ords and (("b",), ("a",)) in ords
+            if any(cyclic(g_i) for g_i in group):
+                info["cyclic_skipped"] = info.get("cyclic_skipped", 0) + 1
+                continue
+            if any(s_[0] == "order" for g_i in group for ss_ in g_i.blocks.values() for s_ in ss_):
+                info["order_calls"] = info.get("order_calls", 0) + 1
             st, exc = flat.do_call(ns, target, "randomize", None, seed)
             if st == "exc":
                 reset_library()
@@ -317,7 +332,7 @@ def run_case(case):
                         return [V("wrong_blocks_enforced", "result violates the enabled most-derived blocks of this instance", case,
                                   where + ": instance #%d (level %d, %s, k=%d, enabled %s) got a=%d b=%d q=%s"
                                   % ((insts + implicit).index(g_i), g_i.level, g_i.place, g_i.k, cjson(en), got[0], got[1], list(got[2:])))], info
-            if it.holder is not None and not any_empty:
+            if it.holder is not None and not any_empty:   # (group is not cyclic: checked above)
                 # the holder's own block c0 (t < 4): t == 6 is accepted iff that block is off, whatever the same-named
                 # blocks of the objects it holds are set to
                 st_h, exc_h = flat.do_call(ns, it.holder, "randomize_with", [["expr", ["bin", "==", ["f", "t"], ["lit", 6]]]], seed + 3)
@@ -354,6 +369,10 @@ def run_case(case):
                 pre = "" if o_i.holder is None else o_i.path + "."
                 pins = [prefix_stmt(s, pre) for s in flat.pin_stmts(prog, rf, dict(zip(names, vals)))]
                 tgt = o_i.obj if o_i.holder is None else o_i.holder
+                # (a call in which the enforced blocks of a participating instance order a and b both ways is a user error)
+                members = [o_i] if o_i.holder is None else [g2 for h, n, elems in holders if h is o_i.holder for g2 in ([n] if n else []) + elems]
+                if any(cyclic(g2) for g2 in members):
+                    continue
                 # other members of a holder must be satisfiable for the probe to be meaningful
                 if o_i.holder is not None:
                     grp = [g2 for h, n, elems in holders if h is o_i.holder for g2 in ([n] if n else []) + elems if g2 is not o_i]
@@ -382,6 +401,8 @@ def body(case, acc):
     acc.case(case, bool(nt), sample=text_of(case))
     acc.label("probes", info["probes"])
     acc.label("constructor-time toggles", info.get("ctor_toggles", 0))
+    acc.label("calls on instances whose blocks hold solve_order directives", info.get("order_calls", 0))
+    acc.label("calls not made: both contradicting solve_order blocks enforced", info.get("cyclic_skipped", 0))
     acc.label("levels:%d" % len(case["classes"]))
     if case["classes"][0].get("lists"):
         acc.label("blocks with foreach over a list")
